@@ -61,7 +61,7 @@ TRUSTED = {
     "common": [
         "Verus 0.2026.09.13 + Z3 (soundness of the verifier)",
         "rustc type / borrow checking of /repo (lifetimes, Send, ownership, drop glue)",
-        "extractor rules of DESIGN.md 3.2 (slicing, lifetime erasure, type substitution table, lowering rules R1-R12)",
+        "extractor rules of DESIGN.md 3.2 (slicing, lifetime erasure, type substitution table, lowering rules R1-R20; impl headers are unit text, their associated types are compared with the source)",
         "smallvec / arrayvec behave as sequences (ArrayVec::push panics exactly when full)",
         "slice::sort and Vec::dedup keep the set of elements",
         "System::accessor / running_time are stable (same answer on every call), as the crate documents",
